@@ -221,6 +221,60 @@ def extract():
     return sites
 
 
+def extract_gate():
+    """Arms of `check_number_value`: [(FpCategory, is_error, error kind)] in source order."""
+    path = os.path.join(SRC_ROOT, "eval", "mod.rs")
+    clean = strip_comments(open(path, encoding="utf-8").read())
+    m = re.search(r"fn\s+check_number_value\s*\(", clean)
+    if not m:
+        raise ExtractError("fn check_number_value not found in eval/mod.rs")
+    k = clean.index("{", m.end())
+    body = clean[k:matching_paren(clean, k) + 1]
+    if not re.search(r"match\s+value\.classify\(\)\s*\{", body):
+        raise ExtractError("check_number_value does not `match value.classify()`")
+    arms = []
+    # split the match body into arms at top-level `=>`
+    mb = body[body.index("{", body.index("classify")):]
+    mb = mb[1:matching_paren(mb, 0)]
+    depth, cur, parts = 0, "", []
+    i = 0
+    while i < len(mb):
+        ch = mb[i]
+        if ch in "([{":
+            depth += 1
+        elif ch in ")]}":
+            depth -= 1
+        if depth == 0 and ch == "," or (depth == 0 and ch == "}" ):
+            cur += ch if ch == "}" else ""
+            parts.append(cur)
+            cur = ""
+        else:
+            cur += ch
+        i += 1
+    if cur.strip():
+        parts.append(cur)
+    for part in parts:
+        if "=>" not in part:
+            if part.strip():
+                raise ExtractError("unparsed text in check_number_value: %r" % part.strip()[:60])
+            continue
+        pat, rhs = part.split("=>", 1)
+        cats = re.findall(r"FpCategory::([A-Za-z]+)", pat)
+        if not cats or re.sub(r"std::num::FpCategory::[A-Za-z]+|[\s|]", "", pat):
+            raise ExtractError("unsupported pattern in check_number_value: %r" % norm(pat))
+        rhs_n = norm(rhs)
+        if re.fullmatch(r"Ok\(\(\)\)", rhs_n):
+            kind = "ok"
+        else:
+            mk = re.search(r"Err\(self\.report_error\(EvalErrorKind::([A-Za-z]+)\s*\{", rhs_n)
+            if not mk:
+                raise ExtractError("unsupported arm body in check_number_value: %r" % rhs_n[:80])
+            kind = mk.group(1)
+        for c in cats:
+            arms.append((c, kind))
+    return arms
+
+
 def load_map():
     if tomllib is None:
         raise ExtractError("python tomllib not available")
@@ -236,7 +290,7 @@ def lean_str(s):
     return '"' + s.replace("\\", "\\\\").replace('"', '\\"') + '"'
 
 
-def render(sites, mapping):
+def render(sites, mapping, arms=None):
     lines = [
         "/-",
         "  GENERATED by tools/extract_number_sites.py from /repo/rsjsonnet-lang/src/program -- do not edit.",
@@ -259,6 +313,11 @@ def render(sites, mapping):
     lines.append(",\n".join(items))
     lines.append("]")
     lines.append("")
+    lines.append("/-- arms of `check_number_value` (`match value.classify()`): category -> outcome -/")
+    lines.append("def gateArms : List (String × String) := [")
+    lines.append(",\n".join("  (%s, %s)" % (lean_str(c), lean_str(k)) for c, k in (arms or [])))
+    lines.append("]")
+    lines.append("")
     lines.append("end Rsj.NumberSites")
     return "\n".join(lines) + "\n"
 
@@ -270,7 +329,7 @@ def main_write():
     keys = {s["key"] for s in sites}
     unmapped = [s["key"] for s in sites if s["key"] not in mapping]
     stale = [k for k in mapping if k not in keys]
-    text = render(sites, mapping)
+    text = render(sites, mapping, extract_gate())
     old = None
     if os.path.exists(OUT):
         old = open(OUT, encoding="utf-8").read()
